@@ -488,7 +488,7 @@ func runC07(t *Trace, r *Rng, tier string, _ []string) {
 			q := bleve.NewDateRangeInclusiveQuery(st, en, imP, iMP)
 			q.SetField("t")
 			// pre-check the walk
-			mnf, mxf := math.Inf(-1), math.Inf(1)
+			mnf, mxf := numeric.Int64ToFloat64(math.MinInt64), numeric.Int64ToFloat64(math.MaxInt64)
 			if !st.IsZero() {
 				mnf = numeric.Int64ToFloat64(s)
 			}
